@@ -1804,6 +1804,30 @@ func helperRules(c *core.Ctx, codecs map[string]method05) {
 					}
 				}
 			}
+			// the same walk written as an index loop: for i := 0; i < len(units); i++ { n := units[i] ... }
+			if ph, isPhi := ia.Index.(*ssa.Phi); isPhi && len(ph.Edges) == 2 {
+				init, step := false, false
+				for _, e := range ph.Edges {
+					if k, isK := constNumber(e); isK && k == 0 {
+						init = true
+					} else if isAddOne(e, ph) {
+						step = true
+					}
+				}
+				bounded := false
+				if hif, isIf := ph.Block().Instrs[len(ph.Block().Instrs)-1].(*ssa.If); isIf {
+					if cmp, isCmp := hif.Cond.(*ssa.BinOp); isCmp && cmp.Op == token.LSS && cmp.X == ssa.Value(ph) {
+						if lc, isC := cmp.Y.(*ssa.Call); isC && len(lc.Call.Args) == 1 && lc.Call.Args[0] == ssa.Value(units) {
+							if bi, isB := lc.Call.Value.(*ssa.Builtin); isB && bi.Name() == "len" {
+								bounded = true
+							}
+						}
+					}
+				}
+				if init && step && bounded {
+					ok = true
+				}
+			}
 			if !ok {
 				problems = append(problems, "the loop does not visit every UTF-16 unit in order (not a range loop over the units)")
 			}
@@ -1837,6 +1861,16 @@ func helperResult(fn *ssa.Function) []string {
 	var buf ssa.Value
 	var writes, others []*ssa.Call
 	var str, reset, put *ssa.Call
+	// the buffer's identity: the value itself, or - when the variable is spilled (a deferred closure captures it) - the
+	// local it is loaded from
+	ident := func(v ssa.Value) ssa.Value {
+		if ld, ok := v.(*ssa.UnOp); ok && ld.Op == token.MUL {
+			if al, isAl := ld.X.(*ssa.Alloc); isAl {
+				return al
+			}
+		}
+		return v
+	}
 	for _, b := range fn.Blocks {
 		for _, ins := range b.Instrs {
 			call, ok := ins.(*ssa.Call)
@@ -1846,9 +1880,9 @@ func helperResult(fn *ssa.Function) []string {
 			n := call.Call.StaticCallee().Name()
 			if n == "WriteByte" || n == "Write" {
 				if buf == nil {
-					buf = call.Call.Args[0]
+					buf = ident(call.Call.Args[0])
 				}
-				if call.Call.Args[0] == buf {
+				if ident(call.Call.Args[0]) == buf {
 					writes = append(writes, call)
 				}
 			}
@@ -1885,7 +1919,7 @@ func helperResult(fn *ssa.Function) []string {
 			if !ok {
 				continue
 			}
-			if cal := call.Call.StaticCallee(); cal != nil && cal.Signature.Recv() != nil && len(call.Call.Args) > 0 && call.Call.Args[0] == buf {
+			if cal := call.Call.StaticCallee(); cal != nil && cal.Signature.Recv() != nil && len(call.Call.Args) > 0 && ident(call.Call.Args[0]) == buf {
 				switch cal.Name() {
 				case "WriteByte", "Write":
 				case "String":
@@ -1900,7 +1934,7 @@ func helperResult(fn *ssa.Function) []string {
 			}
 			// the buffer handed to something else: the pool's Put, or an escape
 			for _, a := range call.Call.Args {
-				if a == buf {
+				if ident(a) == buf {
 					if cal := call.Call.StaticCallee(); cal != nil && cal.Name() == "Put" {
 						put = call
 					} else {
@@ -1929,12 +1963,31 @@ func helperResult(fn *ssa.Function) []string {
 	}
 	for _, b := range fn.Blocks {
 		if ret, ok := b.Instrs[len(b.Instrs)-1].(*ssa.Return); ok {
-			if len(ret.Results) == 0 || ret.Results[0] != ssa.Value(str) {
+			res := ssa.Value(nil)
+			if len(ret.Results) > 0 {
+				res = ret.Results[0]
+				// a named result spilled because of a defer: the value stored into it last before the return
+				if ld, isLd := res.(*ssa.UnOp); isLd && ld.Op == token.MUL {
+					if al, isAl := ld.X.(*ssa.Alloc); isAl && al.Referrers() != nil {
+						var stored []ssa.Value
+						for _, r := range *al.Referrers() {
+							if st, isSt := r.(*ssa.Store); isSt && st.Addr == ssa.Value(al) {
+								stored = append(stored, st.Val)
+							}
+						}
+						if len(stored) == 1 {
+							res = stored[0]
+						}
+					}
+				}
+			}
+			if res != ssa.Value(str) {
 				problems = append(problems, "the result is not the buffer's String()")
 			}
 		}
 	}
-	if _, fromPool := buf.(*ssa.Call); fromPool && put != nil {
+	_, fromPool := buf.(*ssa.Call)
+	if fromPool && put != nil {
 		if reset == nil || !before(reset, put) {
 			problems = append(problems, "the pooled buffer is put back without a Reset: the next call starts with this call's octets in it")
 		}
